@@ -74,6 +74,51 @@ func SpinnerWorker(args []string) int {
 	}
 }
 
+// SpinnerStartWorker runs in a child process: again and again the FIRST task output of a process
+// under the cockpit format is started (the process-wide cockpit is reset in between), with the
+// unmodified 100 ms frame: the drawing goroutine that spinner.New starts races with add().
+func SpinnerStartWorker(args []string) int {
+	iters := 100000
+	if len(args) > 0 {
+		iters, _ = strconv.Atoi(args[0])
+	}
+	var n int64
+	fin := make(chan struct{})
+	go func() {
+		for i := 0; i < iters; i++ {
+			ch := output.VerifResetCockpit()
+			t := task.FromCommands("true")
+			t.Name = "first"
+			o, err := output.NewTaskOutput(t, output.FormatCockpit, ioutil.Discard, ioutil.Discard)
+			if err != nil {
+				fmt.Println("ERR", err)
+				os.Exit(2)
+			}
+			_ = o.Start()
+			close(ch) // stops this iteration's spinner
+			atomic.AddInt64(&n, 1)
+		}
+		close(fin)
+	}()
+	prev := int64(-1)
+	for {
+		select {
+		case <-fin:
+			fmt.Printf("DONE %d\n", atomic.LoadInt64(&n))
+			return 0
+		case <-time.After(10 * time.Second):
+			cur := atomic.LoadInt64(&n)
+			if cur == prev {
+				buf := make([]byte, 1<<16)
+				buf = buf[:runtime.Stack(buf, true)]
+				fmt.Printf("STUCK %d\n%s\n", cur, buf)
+				return 3
+			}
+			prev = cur
+		}
+	}
+}
+
 // checkSpinner: design (Spinner.tla) and the stress run that binds it to the code.
 func checkSpinner(env *core.Env, add func(kind, what string, detail interface{}), note func(string, *core.TLCResult, string)) int {
 	r := core.MustHold(env, core.TLCOpts{Module: "Spinner", Config: "Spinner_locked.cfg", Workers: 2})
@@ -88,7 +133,27 @@ func checkSpinner(env *core.Env, add func(kind, what string, detail interface{})
 	if env.Thorough() {
 		runs, iters = 6, 1000000
 	}
+	r = core.MustHold(env, core.TLCOpts{Module: "SpinnerStart", Config: "SpinnerStart_outside.cfg", Workers: 2})
+	note("SpinnerStart_outside", r, "add() creating the spinner after releasing b.mu: NoLockCycle and AllAdded hold")
+	r = core.MustFail(env, core.TLCOpts{Module: "SpinnerStart", Config: "SpinnerStart_under.cfg", Workers: 2})
+	note("SpinnerStart_under", r, "negative control (spinner created and started with b.mu held): "+r.Violated+" violated - add() and the drawing goroutine wait for each other")
 	var total int64
+	starts := 400000
+	if env.Thorough() {
+		starts = 4000000
+	}
+	{
+		res := core.RunBin(env.Sub("spinstart"), nil, 15*time.Minute, "", self, "worker", "spinner-start", strconv.Itoa(starts))
+		atomic.AddInt64(&total, int64(starts))
+		switch {
+		case res.Exit == 3:
+			add("format:cockpit:first-task-blocks", "starting the first task output of a process under the cockpit format blocked for ever ("+tail(firstLine(res.Stdout), 80)+"): add() holds the cockpit's mutex and waits for the spinner's lock, the drawing goroutine holds that lock and waits for the mutex", map[string]interface{}{"goroutines": tail(res.Stdout, 4000)})
+		case res.Crashed():
+			add("format:cockpit:crash", "starting task outputs under cockpit crashed: "+firstPanic(res.Stderr), map[string]interface{}{"stderr": tail(res.Stderr, 2000)})
+		case res.TimedOut || res.Exit != 0:
+			core.Broken("spinner-start worker: exit %d timedout %v: %s", res.Exit, res.TimedOut, tail(res.Stderr, 500))
+		}
+	}
 	core.Parallel(runs, 2, func(i int) {
 		res := core.RunBin(env.Sub("spin"), nil, 10*time.Minute, "", self, "worker", "spinner", strconv.Itoa(iters), strconv.Itoa(1+i%3))
 		atomic.AddInt64(&total, int64(iters*(1+i%3)))
